@@ -44,6 +44,8 @@ pub enum Plan {
     FailAt(u16),
     /// reader claims `excess` more bytes than it read, on read number `on` (None = every read)
     OverReport { excess: usize, on: Option<usize> },
+    /// reader claims a read on call number `on` without writing the bytes
+    Unwritten { on: usize },
 }
 
 #[derive(Clone, Debug)]
@@ -61,7 +63,7 @@ pub struct Case {
 impl Case {
     pub fn to_json(&self) -> J {
         json!({"unit": "gen", "bytes": hex(&self.bytes), "text": brief_bytes(&self.bytes), "sched": self.sched.to_json(), "entry": self.entry, "to": self.to.name(), "limit": self.limit, "read_size": self.read_size,
-               "plan": match &self.plan { Plan::Plain => json!("plain"), Plan::FailAt(k) => json!({"fail_at": k}), Plan::OverReport { excess, on } => json!({"excess": excess, "on": on}) }})
+               "plan": match &self.plan { Plan::Plain => json!("plain"), Plan::FailAt(k) => json!({"fail_at": k}), Plan::OverReport { excess, on } => json!({"excess": excess, "on": on}), Plan::Unwritten { on } => json!({"unwritten_on": on}) }})
     }
     pub fn from_json(j: &J) -> Option<Case> {
         let plan = if j["plan"].as_str() == Some("plain") {
@@ -69,7 +71,11 @@ impl Case {
         } else if let Some(k) = j["plan"].get("fail_at") {
             Plan::FailAt(k.as_u64()? as u16)
         } else {
-            Plan::OverReport { excess: j["plan"]["excess"].as_u64()? as usize, on: j["plan"]["on"].as_u64().map(|x| x as usize) }
+            if let Some(on) = j["plan"]["unwritten_on"].as_u64() {
+                Plan::Unwritten { on: on as usize }
+            } else {
+                Plan::OverReport { excess: j["plan"]["excess"].as_u64()? as usize, on: j["plan"]["on"].as_u64().map(|x| x as usize) }
+            }
         };
         Some(Case {
             bytes: unhex(j["bytes"].as_str()?)?,
@@ -132,6 +138,7 @@ fn case_strategy() -> BoxedStrategy<Case> {
             4 => Just(Plan::Plain),
             3 => any::<u16>().prop_map(Plan::FailAt),
             3 => (prop_oneof![1usize..4, 1usize..70000, Just(usize::MAX / 2)], proptest::option::of(0usize..6)).prop_map(|(excess, on)| Plan::OverReport { excess, on }),
+            2 => (0usize..5).prop_map(|on| Plan::Unwritten { on }),
         ],
         0u8..5,
         crate::checks::c01::fmt_strategy(),
@@ -145,6 +152,7 @@ fn case_strategy() -> BoxedStrategy<Case> {
 enum AnyReader<'a> {
     Sched(SchedReader<'a>),
     Over(OverReportReader<'a>),
+    Unwritten(UnwrittenReader<'a>),
 }
 
 impl Read for AnyReader<'_> {
@@ -152,6 +160,7 @@ impl Read for AnyReader<'_> {
         match self {
             AnyReader::Sched(r) => r.read(buf),
             AnyReader::Over(r) => r.read(buf),
+            AnyReader::Unwritten(r) => r.read(buf),
         }
     }
 }
@@ -163,6 +172,7 @@ fn reader_for<'a>(c: &'a Case) -> AnyReader<'a> {
             let at = (*k as usize * (c.bytes.len() + 1)) >> 16;
             AnyReader::Sched(SchedReader::failing(&c.bytes, c.sched.clone(), at))
         }
+        Plan::Unwritten { on } => AnyReader::Unwritten(UnwrittenReader { inner: SchedReader::new(&c.bytes, c.sched.clone()), on_read: *on, count: 0 }),
         Plan::OverReport { excess, on } => AnyReader::Over(OverReportReader { inner: SchedReader::new(&c.bytes, c.sched.clone()), excess: *excess, on_read: *on, count: 0, lied: false }),
     }
 }
@@ -178,12 +188,22 @@ enum Kind {
 /// Returns the outcome kind, the panic text (only when it panicked) and the
 /// number of read calls.
 fn run_once(c: &Case) -> (Kind, Option<String>, usize) {
+    let (k, p, reads, _) = run_once_digest(c);
+    (k, p, reads)
+}
+
+/// Like `run_once`; also returns a digest of everything observable (output bytes,
+/// error or panic text).
+fn run_once_digest(c: &Case) -> (Kind, Option<String>, usize, u64) {
     let mut r = reader_for(c);
+    let mut observed: Vec<u8> = vec![];
     let v = match c.entry {
         0 | 1 => {
             let from = if c.entry == 0 { Some(xt::Format::Yaml) } else { None };
             let mut out = vec![];
-            guarded(|| xt::translate_reader(&mut r, from, c.to.xt(), &mut out))
+            let v = guarded(|| xt::translate_reader(&mut r, from, c.to.xt(), &mut out));
+            observed = out;
+            v
         }
         2 => guarded(|| {
             // the chunker alone, dropped after `limit` items (early drop of the parser)
@@ -222,11 +242,14 @@ fn run_once(c: &Case) -> (Kind, Option<String>, usize) {
     let reads = match &r {
         AnyReader::Sched(s) => s.reads,
         AnyReader::Over(o) => o.inner.reads,
+        AnyReader::Unwritten(u) => u.inner.reads,
     };
+    observed.extend_from_slice(v.text().as_bytes());
+    let digest = hash_bytes(&[&observed]);
     match v {
-        Verdict::Ok => (Kind::Ok, None, reads),
-        Verdict::Err(_) => (Kind::Err, None, reads),
-        Verdict::Panic(p) => (Kind::Panic, Some(p), reads),
+        Verdict::Ok => (Kind::Ok, None, reads, digest),
+        Verdict::Err(_) => (Kind::Err, None, reads, digest),
+        Verdict::Panic(p) => (Kind::Panic, Some(p), reads, digest),
     }
 }
 
@@ -235,6 +258,23 @@ fn live_bytes() -> usize {
 }
 
 pub fn check_case(c: &Case, rec: &mut Recorder) -> Result<(), String> {
+    // A reader that claims bytes it did not write makes the caller's buffer
+    // contents observable. Whatever xt makes of them, it must not depend on what
+    // FRESH heap memory happens to hold: the run is repeated with every new
+    // allocation pre-filled with two different bytes and must come out the same.
+    if matches!(c.plan, Plan::Unwritten { .. }) && c.entry <= 1 {
+        use crate::checks::c05::alloc_count::FILL;
+        use std::sync::atomic::Ordering;
+        FILL.store(b'Z', Ordering::Relaxed);
+        let a = run_once_digest(c);
+        FILL.store(b'q', Ordering::Relaxed);
+        let b = run_once_digest(c);
+        FILL.store(0, Ordering::Relaxed);
+        if a.3 != b.3 {
+            return Err("the outcome (output bytes or error text) depends on the contents of freshly allocated heap memory: uninitialised memory is read".to_string());
+        }
+        rec.class("fresh_memory_independent");
+    }
     let lying = matches!(c.plan, Plan::OverReport { .. });
     // Leak oracle: the harness's counting global allocator (libyaml's memory
     // goes through it too). The heap level must return to where it was; a first
@@ -280,6 +320,7 @@ pub fn check_case(c: &Case, rec: &mut Recorder) -> Result<(), String> {
         Plan::Plain => "reader:plain",
         Plan::FailAt(_) => "reader:fails_at_offset",
         Plan::OverReport { .. } => "reader:over_reports",
+        Plan::Unwritten { .. } => "reader:claims_unwritten_bytes",
     });
     rec.class(match kind {
         Kind::Ok => "verdict:ok",
@@ -363,7 +404,7 @@ impl Check for C17 {
         u
     }
     fn required_classes(&self, _tier: Tier) -> Vec<&'static str> {
-        vec!["entry:translate_yaml", "entry:translate_detected", "entry:chunker_early_drop", "entry:reencoder", "entry:detection_only", "reader:plain", "reader:fails_at_offset", "reader:over_reports", "clean_panic_on_contract_violation", "sanitizer:address", "ill_formed_code_units"]
+        vec!["entry:translate_yaml", "entry:translate_detected", "entry:chunker_early_drop", "entry:reencoder", "entry:detection_only", "reader:plain", "reader:fails_at_offset", "reader:over_reports", "clean_panic_on_contract_violation", "sanitizer:address", "ill_formed_code_units", "reader:claims_unwritten_bytes", "fresh_memory_independent"]
     }
     fn run_unit(&self, unit: &Unit, shard: u32, seed: u64, _tier: Tier, rec: &mut Recorder) {
         if sanitizer_active() && shard == 0 {
